@@ -15,6 +15,24 @@ from . import terms as T
 from .terms import Poly, Cond, P, C, ZERO, ONE
 
 
+class NarrowInt(str):
+    """dtype tag of an integer array whose element type is the CALLER's integer dtype of unknown width (uint8 pixels,
+    int16 samples, ...): compares equal to "int"; arithmetic between such arrays (or with Python ints) is carried out
+    in that dtype and may wrap around silently -- an 'intwidth' hazard is emitted where the code does that"""
+
+
+NINT = NarrowInt("int")
+
+
+def is_narrow(o):
+    return isinstance(o, Arr) and isinstance(o.dtype, NarrowInt)
+
+
+def floaty(t):
+    nm = getattr(t, "name", None) or (t if isinstance(t, str) else getattr(t, "__name__", None))
+    return t is float or nm in ("float", "float64", "float32", "double", "f8", "longdouble", "b_float")
+
+
 class ModelError(Exception):
     """construct outside the modelled subset (=> undecided, never a violation)"""
 
@@ -139,8 +157,12 @@ class Arr:
     def view(self):
         return Arr(self.shape, self.fn, self.dtype, self.kind, self.mask, self.chunks, self.origin)
 
-    def astype(self, t):
-        return self.copy()
+    def astype(self, t, **kw):
+        r = self.copy()
+        r.origin = frozenset()
+        if floaty(t):
+            r.dtype = "real"
+        return r
 
     def flatten(self):
         r = reshape(self, (-1,))
@@ -152,22 +174,22 @@ class Arr:
 
     # -------------------------------------------------------------- arithmetic
     def __add__(self, o):
-        return ewise(lambda a, b: a + b, self, o)
+        return ewise(lambda a, b: a + b, self, o, arith="add")
 
     def __radd__(self, o):
-        return ewise(lambda a, b: a + b, o, self)
+        return ewise(lambda a, b: a + b, o, self, arith="add")
 
     def __sub__(self, o):
-        return ewise(lambda a, b: a - b, self, o)
+        return ewise(lambda a, b: a - b, self, o, arith="subtract")
 
     def __rsub__(self, o):
-        return ewise(lambda a, b: a - b, o, self)
+        return ewise(lambda a, b: a - b, o, self, arith="subtract")
 
     def __mul__(self, o):
-        return ewise(lambda a, b: a * b, self, o)
+        return ewise(lambda a, b: a * b, self, o, arith="multiply")
 
     def __rmul__(self, o):
-        return ewise(lambda a, b: a * b, o, self)
+        return ewise(lambda a, b: a * b, o, self, arith="multiply")
 
     def __truediv__(self, o):
         return ewise(_div, self, o)
@@ -176,12 +198,14 @@ class Arr:
         return ewise(_div, o, self)
 
     def __neg__(self):
-        return ewise(lambda a: -a, self)
+        return ewise(lambda a: -a, self, arith="negative")
 
     def __pow__(self, n):
         if isinstance(n, Arr):
             raise ModelError("array exponent")
-        return ewise(lambda a: _pow(a, n), self)
+        if isinstance(n, float) and not isinstance(n, bool):
+            return ewise(lambda a: _pow(a, n), self, dtype="real")
+        return ewise(lambda a: _pow(a, n), self, arith="power")
 
     def __abs__(self):
         return ewise(T.mk_abs, self)
@@ -356,7 +380,7 @@ def _bidx(arr, rn):
     return m
 
 
-def ewise(f, *ops, dtype=None):
+def ewise(f, *ops, dtype=None, arith=None):
     arrs = [o for o in ops if isinstance(o, Arr)]
     if not arrs:
         return f(*[o for o in ops])
@@ -384,6 +408,11 @@ def ewise(f, *ops, dtype=None):
     if dtype is None:
         dtype = "bool" if all(isinstance(o, Arr) and o.dtype == "bool" for o in ops) else \
             ("int" if all((isinstance(o, Arr) and o.dtype == "int") or isinstance(o, int) for o in ops) else "real")
+        if dtype == "int" and any(is_narrow(o) for o in ops):
+            # NumPy keeps the operands' integer dtype (Python ints are weak): the result can wrap around
+            dtype = NINT
+            if arith:
+                T.side("intwidth", arith, "%s of integer arrays is carried out in the input's own (possibly 8/16/32-bit) integer dtype" % arith)
     # snapshot the operands' element functions NOW: a later in-place update of an operand
     # must not change this (fresh) result
     opsl = [(o.fn if isinstance(o, Arr) else o) for o in ops]
@@ -472,6 +501,10 @@ def reduce_arr(a, how, axis, keepdims):
             r = r / cnt
         return r
     dtype = "int" if how in ("argmin", "argmax") else ("real" if a.dtype == "bool" else a.dtype)
+    if how in ("sum", "prod") and dtype == "int":
+        dtype = "int"            # np.sum / np.prod accumulate small integers in the platform integer (64 bit)
+    if how == "mean":
+        dtype = "real"
     if not shape:
         return fn()
     return Arr(tuple(shape), fn, dtype, a.kind, mask)
@@ -649,6 +682,8 @@ def matmul(a, b):
         raise ShapeError("matmul: scalar operand")
     a1 = a.ndim == 1
     b1 = b.ndim == 1
+    if a.dtype == "int" and b.dtype == "int" and (is_narrow(a) or is_narrow(b)):
+        T.side("intwidth", "matmul", "matrix product of integer arrays is accumulated in the input's own (possibly narrow) integer dtype")
     A = a.view() if not a1 else getitem(a, (None, slice(None)))
     B = b.view() if not b1 else getitem(b, (slice(None), None))
     ka, kb = A.shape[-1], B.shape[-2]
@@ -886,8 +921,10 @@ def eye(n, m=None):
     return Arr((n, m), lambda i, j: T.mk_ind(T.cmp_cond("==", i, j)))
 
 
-def input_arr(name, shape, kind="numpy", dtype="real", chunks=None):
+def input_arr(name, shape, kind="numpy", dtype="real", chunks=None, narrow=False):
     sort = "int" if dtype == "int" else "real"
+    if narrow:
+        dtype = NINT
     return Arr(tuple(shape), lambda *idx: T.app(name, *idx, sort=sort), dtype, kind, None, chunks, origin={name})
 
 
